@@ -278,13 +278,9 @@ def build(repo=None):
             # mutable per-class state such as the transparent flag (which stays a metaclass-level default until make_transparent sets it)
             ob("C20:_make_array:the-class-dict-holds-exactly-the-defining-attributes(no-mutable-per-class-state-enters-a-by-value-snapshot)",
                keys == sorted(["dtype", "array_type", "dtypes", "dims", "index_variadic", "dim_str", "_subscript_item"]), ["C20", "C12"], keys=",".join(keys))
-    # round-trip lemma: rebuild(x) = x.dtype[x._subscript_item] = _make_array(item[0], item[1].strip(), x.dtype) -- same arguments as the original call
-    gi = mod.func("_MetaAbstractDtype.__getitem__")
-    functions.append({"qualname": "jaxtyping._array_types._MetaAbstractDtype.__getitem__", "sha256_16": mod.sha(gi), "lines": [gi.lineno, gi.end_lineno]})
-    txt = ast.unparse(gi)
-    calls = [c for c in ast.walk(gi) if isinstance(c, ast.Call) and getattr(c.func, "id", "") == "_make_array"]
-    ok = len(calls) == 2 and all(len(c.args) == 3 and ast.unparse(c.args[1]) == "dim_str" and ast.unparse(c.args[2]) == "cls" for c in calls)
-    ob("C20:roundtrip:__getitem__-rebuilds-through-_make_array(member, stripped dim_str, this category)", ok and "dim_str = dim_str.strip()" in txt, ["C20", "C15"])
+    # round-trip lemma: rebuild(x) = x.dtype[x._subscript_item] = _make_array(item[0], item[1].strip(), x.dtype) -- same arguments as the original call.
+    # That __getitem__ calls _make_array(member, stripped dim_str, this category) on every path is proved by executing it (unit parser, clause
+    # `C14:getitem:constructor-gets-the-stripped-string-spec-and-this-category`, which serves C20 and C15 as well).
     strip_idem = z3.Function("py_str_strip", STR, STR)
     s0 = z3.String("s")
     obligations.append({"clause": "C20:roundtrip:strip-is-idempotent(assumed str property, stated)", "kind": "vc", "pc": [strip_idem(strip_idem(s0)) == strip_idem(s0)], "goal": strip_idem(strip_idem(s0)) == strip_idem(s0), "path": [], "meta": {}, "serves": ["C20"]})
